@@ -2403,6 +2403,12 @@ static int next_token(struct scanner_s *scanner) {
             if (result == CIF_EOF) {
                 ttype = END;
                 result = CIF_OK;
+                if ((last_ttype != END) && (POSN_COLUMN(scanner) > CIF_LINE_LENGTH)) {
+                    /* error: long line.  The last line is measured here because it need not end in a terminator */
+                    result = scanner->error_callback(CIF_OVERLENGTH_LINE, scanner->line, scanner->column,
+                            scanner->next_char, 0, scanner->user_data);
+                    /* recover by accepting it as-is */
+                }
             }
 
             /* break out of the scan loop: */
